@@ -1080,6 +1080,13 @@ def parse_primary_expr(lexer, unary_minus=False):
                 or lexer.peekn(1, ")", "interpunction")
                 or lexer.peekn(1, "]", "interpunction")
                 or lexer.peekn(1, ",", "interpunction")
+                or lexer.peekn(1, "*>", "interpunction")
+                or lexer.peekn(1, ">>", "interpunction")
+                or lexer.peekn(1, ">>>", "interpunction")
+                or lexer.peekn(1, "=>", "interpunction")
+                or lexer.peekn(1, "for", "keyword")
+                or lexer.peekn(1, "also", "keyword")
+                or lexer.peekn(1, "then", "keyword")
             ):
                 # a value-less return; the ; after it is as optional as
                 # after any other last statement of a block
